@@ -62,6 +62,9 @@ func runC01(c *Ctx) {
 	}
 	// completeness starts at the configuration: a configured (cipher, secret) is in the list unless it is a true duplicate
 	if ra := findReload(c, "DEDUP"); ra != nil {
+		// "for every key list": each listener authenticates against the key list its configuration entry gives it — a list
+		// object shared between ports holds the keys of whichever port was configured last
+		ruleBind(c, ra)
 		ruleDedup(c, ra)
 	}
 }
@@ -153,6 +156,8 @@ func runC06(c *Ctx) {
 	ruleGates(c, a, "GATE7")
 	ruleGates(c, a, "GATE8")
 	rulePreAuthRaceFree(c, a)
+	// "at the same deadline whatever ...": the handler does not end a drain when its context is cancelled (listener closed on reload)
+	ruleSurvive(c)
 }
 
 // C06.RACEFREE: the shared components the authentication code touches (key list, key entries, replay history) obey their lock
@@ -699,6 +704,9 @@ func runC08(c *Ctx) {
 		ruleGates(c, a, "INSTALL")
 	}
 	ruleSaltSlice(c, "GATE")
+	if a != nil {
+		ruleDeadline(c, a) // "handled like an invalid probe": a refused reflected replay is closed at the same deadline
+	}
 	ruleSelect(c)
 	ruleConstruct(c)
 	ruleAgree(c)
